@@ -14,8 +14,13 @@
 #include <errno.h>
 #include <poll.h>
 #include <stdbool.h>
+#include <sys/socket.h>
 #include <sys/uio.h>
 #include <unistd.h>
+
+#ifndef MSG_NOSIGNAL
+#define MSG_NOSIGNAL 0
+#endif
 
 #include "core/sockfd.h"
 #include "posix_impl.h"
@@ -68,7 +73,14 @@ sfd_dowrite(nni_sfd_conn *c)
 			}
 		}
 
-		if ((n = writev(fd, iovec, niov)) < 0) {
+		struct msghdr hdr = { 0 };
+
+		hdr.msg_iov    = iovec;
+		hdr.msg_iovlen = niov;
+
+		// not writev: a peer that has gone away must not raise
+		// SIGPIPE in whatever thread happens to be sending
+		if ((n = sendmsg(fd, &hdr, MSG_NOSIGNAL)) < 0) {
 			switch (errno) {
 			case EINTR:
 				continue;
